@@ -206,6 +206,7 @@ def run_check(pid, tier, seed, t0):
     lines = []
     nviol = 0
     known_hit = set()
+    n_kf_obl = 0
     seen_names = set()
     for (r, x) in refuted:
         t = r["task"]
@@ -227,6 +228,10 @@ def run_check(pid, tier, seed, t0):
         path = os.path.join(rdir, fname + ".json")
         reproduced, rout = None, None
         kf0 = match_finding(findings, pid, t, x, rep)
+        if kf0 is not None:
+            # obligations inside the region of a recorded finding are the finding, counted
+            # apart from the obligations this run had to discharge
+            n_kf_obl += 1
         if kf0 is not None and id(kf0) in known_hit:
             continue        # further obligations of a finding already reported in this run
         if t["kind"] == "verify" and rep["contract"] is not None:
@@ -311,6 +316,7 @@ def run_check(pid, tier, seed, t0):
                        % (obligations, minimum))
     wall = time.time() - t0
     level = prop.LEVEL
+    obligations -= n_kf_obl
     allproved = (discharged == obligations and not undecided and not crashed
                  and nviol == 0)
     cov = {
@@ -330,6 +336,7 @@ def run_check(pid, tier, seed, t0):
         "refuted": ([x["name"] for (_, x) in refuted] +
                     [c["name"] for c in custom_fail])[:50],
         "known_findings_reported": len(known_hit),
+        "known_finding_obligations": n_kf_obl,
         "samples": samples or [{"note": "no obligation discharged"}],
         "explanation": getattr(prop, "EXPLANATION", ""),
         "evaluations": sum(b.get("evaluations", 0) for b in bounded) + obligations,
